@@ -24,6 +24,7 @@ import (
 
 	"github.com/zilliztech/milvus-cdc/core/reader"
 	"github.com/zilliztech/milvus-cdc/core/util"
+	"github.com/zilliztech/milvus-cdc/server"
 	srvmodel "github.com/zilliztech/milvus-cdc/server/model"
 	"github.com/zilliztech/milvus-cdc/server/metrics"
 	"github.com/zilliztech/milvus-cdc/server/model/meta"
@@ -38,6 +39,26 @@ import (
 const replicateChan = "by-dev-replicate-msg"
 
 var planSeq int64
+
+// the environment of the plan that is being replayed (for the server's VerifEvent hook)
+var (
+	curMu  sync.Mutex
+	curEnv *env
+)
+
+// srvEvent records an internal server event in the world's log - only while the incarnation it comes from is the living
+// one and is not being torn down (a killed incarnation's loops return too, but nothing they do has an effect).
+func srvEvent(kind, arg string) {
+	curMu.Lock()
+	e := curEnv
+	curMu.Unlock()
+	if e == nil || e.inc == nil || e.quiet || !e.w.Alive(e.inc.Epoch) {
+		return
+	}
+	if kind == "dml-loop-exit" {
+		e.w.Note(hx.Event{"ev": "loopexit", "q": arg, "epoch": e.inc.Epoch})
+	}
+}
 
 type gateT struct {
 	mu    sync.Mutex
@@ -76,6 +97,7 @@ type env struct {
 	maxc    int
 	logical int
 	bad     string
+	quiet   bool // tear-down in progress
 	ops     []map[string]interface{} // script of the source's replicate channel (operation packs)
 	opcur   map[string]int           // per task: next op index of the current registration
 }
@@ -351,6 +373,9 @@ func (e *env) apiStates() []hx.Event {
 func run(p *hx.Plan) []hx.Event {
 	e := newEnv(p)
 	e.seed()
+	curMu.Lock()
+	curEnv = e
+	curMu.Unlock()
 	evs := []hx.Event{{"op": "seed", "log": []hx.Event{}, "regs": []hx.Event{}, "oregs": []hx.Event{}, "store": e.w.DumpStore(), "api": []hx.Event{}}}
 	gates.mu.Lock()
 	gates.want, gates.packs, gates.held = map[string]string{}, map[*msgstream.MsgPack]string{}, map[string]chan struct{}{}
@@ -369,7 +394,9 @@ func run(p *hx.Plan) []hx.Event {
 				if e.w.Alive(e.inc.Epoch) { // a restart of a live incarnation = crash at a quiescent point
 					e.w.Kill()
 				}
+				e.quiet = true
 				e.inc.Teardown()
+				e.quiet = false
 				e.inc.Forget()
 			}
 			e.inc = srvpipe.NewInc(e.w, e.maxc)
@@ -475,6 +502,7 @@ func run(p *hx.Plan) []hx.Event {
 		}
 	}
 	// teardown
+	e.quiet = true
 	gates.mu.Lock()
 	for s, ch := range gates.held {
 		close(ch)
@@ -493,6 +521,7 @@ func main() {
 	util.InitMilvusPkgParam()
 	metrics.RegisterMetric()
 	reader.VerifYield = yield
+	server.VerifEvent = srvEvent
 	_ = json.Marshal
 	hx.Run(run)
 }
